@@ -76,6 +76,37 @@ def worker(case, led):
         led.check(len(got) == len(created) and all(any(g is c for g in got) for c in created) and len(set(map(id, got))) == len(got),
                   f"post:BasisTree.{ctor}:keeps_every_basis_once", f"BasisTree.{ctor}", f"{len(got)} basis sets in the tree for {len(created)} given",
                   (kind, n_nodes, flavour, seed, "once"), {}, dict(desc, flavour=flavour))
+        if ctor in ("binary_mctdh", "ternary_mctdh", "mctdh_contract"):
+            # the label of the virtual nodes is a documented argument of every MCTDH constructor (two such trees joined under one root need distinct labels):
+            # it is forwarded, and the joined tree is a valid basis tree on which the operator is built
+            try:
+                def build(lbl, sets):
+                    if ctor == "binary_mctdh":
+                        return BasisTree.binary_mctdh(sets, dummy_label=lbl)
+                    if ctor == "ternary_mctdh":
+                        return BasisTree.ternary_mctdh(sets, dummy_label=lbl)
+                    return BasisTree.general_mctdh(sets, 2, contract_primitive=True, dummy_label=lbl)
+                # (every MCTDH constructor needs at least two basis sets: two subtrees from four sets upward, one tree otherwise)
+                half = len(created) // 2
+                if half >= 2:
+                    t1, t2 = build("left virtual", created[:half]), build("right virtual", created[half:])
+                else:
+                    t1, t2 = build("left virtual", created), None
+                dl = [b.dofs[0] for b in t1.basis_list if type(b).__name__ == "BasisDummy"] + ([b.dofs[0] for b in t2.basis_list if type(b).__name__ == "BasisDummy"] if t2 else [])
+                ok = all(d[0] in ("left virtual", "right virtual") for d in dl) and len(set(dl)) == len(dl)
+                if t2 is not None:
+                    from renormalizer.tn.treebase import TreeNodeBasis
+                    from renormalizer.model.basis import BasisDummy
+                    root = TreeNodeBasis([BasisDummy(("joint root", 0))])
+                    root.add_child([t1.root, t2.root])
+                    joint = BasisTree(root)
+                    ok = ok and len(set(map(str, joint.dof_list))) == len(joint.dof_list)
+                led.check(ok, f"post:BasisTree.{ctor}:virtual_nodes_carry_the_requested_label", f"BasisTree.{ctor}",
+                          f"virtual node labels {dl[:4]} for dummy_label='left virtual' / 'right virtual' (or the joined tree has duplicate degrees of freedom)",
+                          (kind, n_nodes, flavour, seed, "dummy-label"), {}, dict(desc, flavour=flavour))
+            except Exception as e:
+                led.check(False, f"post:BasisTree.{ctor}:virtual_nodes_carry_the_requested_label", f"BasisTree.{ctor}", f"raised {type(e).__name__}: {e}",
+                          (kind, n_nodes, flavour, seed, "dummy-label"), {}, dict(desc, flavour=flavour))
         if ctor == "linear":
             led.check([b for b in bt.basis_list] == created, f"post:BasisTree.{ctor}:preorder_is_input_order", f"BasisTree.{ctor}", "pre-order differs from the input order",
                       (kind, n_nodes, flavour, seed, "order"), {}, dict(desc, flavour=flavour))
